@@ -549,6 +549,23 @@ class MasterDriver:
         self.ops.append(('agent_reregisters', name, spelled))
         self.mon.count('agent_reregistered_with_new_capacity_same_boot_time')
 
+    def op_burst(self, count=None):
+        """More than a thousand instances of one application submitted at once (one listing of /scheduled names them all)."""
+        count = count or self.rng.randint(1005, 1150)
+        man, demand = self.gen_manifest()
+        man.update(memory='0M', cpu='0%', disk='0M', priority=self.rng.choice([1, 10, 50]))
+        for k in ('schedule_once', 'traits', 'lease', 'identity_group', 'affinity_limits', 'data_retention_timeout'):
+            man.pop(k, None)
+        self.interleaving = True            # (the master is busy: it reads /scheduled once, after the whole burst)
+        try:
+            ids = self.api.create_apps(self.admin, self.rng.choice(self.appnames), man, count)
+        finally:
+            self.interleaving = False
+        for i in ids:
+            self.Z['apps'][i] = dict(man=dict(man), demand=[0, 0, 0])
+        self.ops.append(('create_apps_burst', len(ids), ids[0], man))
+        self.mon.count('instances_submitted_in_one_burst', len(ids))
+
     def op_server_stub(self):
         """A create_server that died after its first request: /servers/<name> exists with an empty payload, no event."""
         name = 'stub%d' % self._next()
